@@ -172,6 +172,10 @@ def correspond(rng, tier, boost=1, with_boundary=True):
         dist[c] = dist.get(c, 0) + 1
         if m != "[]":
             nontrivial += 1
+        if m.startswith("CRASH") and not i.startswith("CRASH"):
+            # the extracted model could not be evaluated (OCaml stack / time limit): counted, not judged
+            dist["model_unevaluated"] = dist.get("model_unevaluated", 0) + 1
+            continue
         if m.startswith("ERR"):
             errs.append((w, t, c, i, m))
         elif i != m:
